@@ -598,10 +598,25 @@ def c14_any_separator(ctx, F):
         if "1: " in t:
             flag = t.split("1: ", 1)[1]
     cl = [f for f in F.fn_list if f.name.startswith(fn.name + "::{closure")]
-    cl_sets = any("is_sep" in show(e) or ".1" in show(e) for f in cl for pt, e in f.points() for x in own_walk(e) if x.get("k") == "assign" and "BitOr" in show(x) or "|" in show(x)) if cl else False
+    # every store the closure makes through the captured flag ORs a raw transition's separator bit into it
+    stores_, ors = 0, 0
+    for f in cl:
+        for pt, e in f.points():
+            for x in own_walk(e):
+                if x.get("k") == "assign" and strip(x["l"]).get("k") == "un" and strip(x["l"]).get("op") == "*" and "bool" in str(strip(strip(x["l"])["e"]).get("t", "")):
+                    stores_ += 1
+                    r = strip(cond_def(f, x["r"]))
+                    if r.get("k") == "bin" and r.get("op") == "|" and any(strip(cond_def(f, o)).get("k") == "un" and strip(cond_def(f, o)).get("op") == "*" for o in (r["l"], r["r"])):
+                        ors += 1
+    cl_sets = stores_ >= 1 and ors == stores_
     from_grouped = ("group_transitions" in flag) or ("::transitions(" in flag) or ("is_separator" in flag and "raw_transitions" not in flag)
     uses_raw = any("raw_transitions" in c for c in calls)
     captures = any("closure{0: &any_sep" in t or "closure{0: &" in t for t in rets)
+    if uses_raw and captures and not from_grouped and not cl_sets:
+        ctx.bad("S3", "transitions_and_any_sep:flag-is-a-disjunction", "the closure over raw_transitions() no longer ORs each transition's separator bit into the flag (%d store(s), %d of them `flag |= is_sep`): "
+                "the flag must be true as soon as *any* raw transition is a separator" % (stores_, ors))
+    elif uses_raw and captures and not from_grouped:
+        ctx.ok("S3", "transitions_and_any_sep:flag-is-a-disjunction", "the closure's only store to the captured flag is `flag |= is_sep`")
     if uses_raw and captures and not from_grouped:
         ctx.ok("S3", key, "the flag is accumulated by the closure that walks raw_transitions() (it is handed the flag by reference)")
     else:
